@@ -59,6 +59,32 @@ pub fn chain_spec_at(label: &str, enc: [Enc; 3], fee_rate: u16, protocol_fee_rat
     }
 }
 
+/// Bounds exactly on a tick-array edge: P0 [-128,128) | P1 [128,5632) | P2 [5632,5760). Tick 5632 is slot 0 of array 1 and is a
+/// bound of two positions; array 0's last slot stays empty, so b->a searches enter array 1 through the shifted slot / hand-over.
+pub fn edge_spec(label: &str, enc: [Enc; 3]) -> StdSpec {
+    StdSpec {
+        label: label.into(),
+        tick_spacing: 64,
+        fee_rate: 3000,
+        protocol_fee_rate: 300,
+        sqrt_price: P0,
+        arrays: vec![(-1, enc[0]), (0, enc[1]), (1, enc[2])],
+        positions: vec![(-128, 128, false), (128, 5632, true), (5632, 5760, false)],
+        t22_a: None,
+        t22_b: None,
+    }
+}
+
+pub fn edge_roots() -> Vec<(&'static str, Vec<Op>)> {
+    let fund = vec![Op::Inc { pos: 0, liq: BIG, v2: false }, Op::Inc { pos: 1, liq: BIG / 8, v2: true }, Op::Inc { pos: 2, liq: BIG, v2: true }];
+    let mut below_edge = fund.clone();
+    below_edge.push(Op::Swap { a_to_b: false, exact_in: true, amount: u64::MAX >> 8, lim: Lim::NextTick, v2: true }); // onto 128
+    below_edge.push(Op::Swap { a_to_b: false, exact_in: true, amount: u64::MAX >> 8, lim: Lim::ShortOfNextTick, v2: false }); // just below 5632
+    let mut above_edge = below_edge.clone();
+    above_edge.push(Op::Swap { a_to_b: false, exact_in: true, amount: u64::MAX >> 8, lim: Lim::PastNextTick, v2: true }); // just above 5632
+    vec![("funded", fund), ("below-array-edge", below_edge), ("above-array-edge", above_edge)]
+}
+
 pub fn chain_roots() -> Vec<(&'static str, Vec<Op>)> {
     let fund = vec![
         Op::Inc { pos: 0, liq: BIG, v2: true },
@@ -154,6 +180,8 @@ pub fn std_alphabet(npos: u8, with_admin: bool) -> Vec<Op> {
         a.push(Op::Swap { a_to_b, exact_in: true, amount: u64::MAX >> 8, lim: Lim::NextTick, v2: i == 0 });
         a.push(Op::Swap { a_to_b, exact_in: false, amount: 100_000, lim: Lim::None, v2: i == 0 });
         a.push(Op::Swap { a_to_b, exact_in: true, amount: 20_000_000, lim: Lim::None, v2: i == 1 });
+        // exact-out that stops at an explicit limit before the requested output is produced (partial fill), both versions
+        a.push(Op::Swap { a_to_b, exact_in: false, amount: 30_000_000, lim: Lim::Mid, v2: i == 0 });
     }
     for pos in 0..npos {
         a.push(Op::Update { pos });
@@ -222,6 +250,8 @@ pub fn swap_alphabet() -> Vec<Op> {
             (true, u64::MAX >> 8, Lim::NextTick),
             (true, u64::MAX >> 8, Lim::PastNextTick),
             (true, 20_000_000, Lim::None),
+            (false, 30_000_000, Lim::Mid),
+            (false, 30_000_000, Lim::NextTick),
         ] {
             a.push(Op::Swap { a_to_b, exact_in, amount, lim, v2: exact_in });
         }
